@@ -35,7 +35,7 @@ def usable():
 
 class Bench:
     """a scratch copy of a tree with scenario tests added; removed on close"""
-    def __init__(self, repo, scen):
+    def __init__(self, repo, scen, target=None):
         self.td = tempfile.mkdtemp(prefix="hannibal-scen-")
         self.rp = os.path.join(self.td, "repo")
         os.makedirs(self.rp)
@@ -43,7 +43,7 @@ class Bench:
         self.scen = scen
         for s in scen:
             shutil.copy(s["file"], os.path.join(self.rp, "tests", s["test"] + ".rs"))
-        self.env = dict(os.environ, CARGO_NET_OFFLINE="true", CARGO_TARGET_DIR=os.path.join(self.td, "target"), RUST_BACKTRACE="0")
+        self.env = dict(os.environ, CARGO_NET_OFFLINE="true", CARGO_TARGET_DIR=target or os.path.join(self.td, "target"), RUST_BACKTRACE="0")
         self.built = None
 
     def build(self):
@@ -82,10 +82,10 @@ class Bench:
         shutil.rmtree(self.td, ignore_errors=True)
 
 
-def run(repo, scen, repeat=1, confirm=3, jobs=6):
+def run(repo, scen, repeat=1, confirm=3, jobs=6, target=None):
     """-> {seed: {"result": pass|fail|flaky|does-not-build|timeout|error, ...}}; `fail` means: failed in `confirm` runs out of `confirm`"""
     import concurrent.futures
-    b = Bench(repo, scen)
+    b = Bench(repo, scen, target)
     out = {}
     try:
         b.build()
@@ -149,6 +149,66 @@ def main():
         if opt("--json"):
             json.dump(res, open(opt("--json"), "w"), indent=1, sort_keys=True)
         return 1 if any(v["result"] == "fail" for v in res.values()) else 0
+    if a[0] in ("benign", "loo"):
+        # benign: every usable scenario against every behaviour-preserving tree (benign/*/out/r*/patch.diff and the corpus mutants marked
+        #         harmless): a scenario that fails there asserts more than its property and is struck from the table
+        # loo:    leave-one-out: every stored change the contracts leave undecided is put to the scenarios of its property EXCEPT its own
+        #         demonstration: how often does the bounded stand-in catch a change it was not written for?
+        import glob
+        tgt = tempfile.mkdtemp(prefix="hannibal-scen-target-")
+        rows = []
+        try:
+            if a[0] == "benign":
+                patches = sorted(glob.glob(os.path.join(ROOT, "benign", "*", "out", "r*", "patch.diff")))
+                cm = os.path.join(ROOT, "mutants")
+                for f in sorted(os.listdir(cm)):
+                    if f.endswith(".patch") and ("correct" in f or f.startswith("benign")):
+                        patches.append(os.path.join(cm, f))
+                extra = [x for x in a[1:] if x.endswith((".diff", ".patch"))]
+                patches = extra or patches
+                scen = [x for x in all_scenarios() if x["seed"] in usable()]
+                jobs_ = [(pt, scen) for pt in patches]
+            else:
+                jobs_ = []
+                for n in sorted(os.listdir(SEEDED)):
+                    mp = os.path.join(SEEDED, n, "meta.json")
+                    if not os.path.exists(mp):
+                        continue
+                    m = json.load(open(mp))
+                    if (m.get("check_verdict") or {}).get("verdict") != "undecided" and "--all-seeds" not in a:
+                        continue
+                    scen = [x for x in all_scenarios() if x["seed"] in usable() and x["prop"] == m["breaks_property"] and x["seed"] != n]
+                    jobs_.append((os.path.join(SEEDED, n, "patch.diff"), scen))
+            for pt, scen in jobs_:
+                td = tempfile.mkdtemp(prefix="hannibal-scen-tree-")
+                try:
+                    rp = os.path.join(td, "r"); os.makedirs(rp)
+                    subprocess.run(["rsync", "-a", "--exclude", "target", "--exclude", ".git", "/repo/", rp + "/"], check=True)
+                    pr = subprocess.run(["patch", "-p1", "-s", "-i", pt], cwd=rp, stdout=subprocess.PIPE, stderr=subprocess.STDOUT, text=True)
+                    if pr.returncode:
+                        print("%s PATCH-FAILED" % pt); continue
+                    res = run(rp, scen, target=tgt, jobs=int(opt("--jobs", "6")))
+                    bad = sorted(k for k, v in res.items() if v["result"] == "fail")
+                    odd = sorted("%s:%s" % (k, v["result"]) for k, v in res.items() if v["result"] not in ("pass", "fail"))
+                    name = os.path.relpath(pt, ROOT)
+                    rows.append({"tree": name, "scenarios": len(scen), "failing": bad, "other": odd})
+                    print("%-40s %3d scenarios, failing: %s %s" % (name, len(scen), ",".join(bad) or "-", ("other: " + ",".join(odd)) if odd else ""), flush=True)
+                finally:
+                    shutil.rmtree(td, ignore_errors=True)
+        finally:
+            shutil.rmtree(tgt, ignore_errors=True)
+        if opt("--json"):
+            json.dump(rows, open(opt("--json"), "w"), indent=1)
+        if a[0] == "benign" and "--write" in a:
+            table = json.load(open(TABLE))
+            for r in rows:
+                for k in r["failing"]:
+                    table[k].setdefault("fails_on_benign", [])
+                    if r["tree"] not in table[k]["fails_on_benign"]:
+                        table[k]["fails_on_benign"].append(r["tree"])
+                    table[k]["usable"] = False
+            json.dump(table, open(TABLE, "w"), indent=1, sort_keys=True)
+        return 0
     print(__doc__); return 2
 
 
